@@ -22,7 +22,46 @@ EXPLANATION = (
     "Does not decide symmetry, range, the Uhlmann value or the Fuchs-van de Graaf bounds numerically.")
 
 
+def rule_leading_block_trace(ctx: Ctx) -> None:
+    """trace.leading-block: `rho.reshape(d_keep, d_rest, d_keep, d_rest)` followed by a trace over the two `d_rest` axes is the partial trace
+    only when the kept subsystems are the *leading* block of the tensor product.  A fast path of that shape has to be guarded by a test that
+    the kept indices start at position 0 (keep[0] == 0, or keep equal to arange(len(keep))); "consecutive" alone also admits [1], [1, 2], …,
+    for which the reshape returns the reduced state of the first len(keep) subsystems instead."""
+    repo = ctx.repo
+    n = 0
+    for rel, q in (("graphiq/backends/density_matrix/state.py", "DensityMatrix.partial_trace"), ("graphiq/backends/density_matrix/functions.py", "partial_trace")):
+        m = repo.module(rel)
+        fn = repo.anchor(rel, q)
+        ctx.touch(m, fn)
+        n += 1
+        keep = func_params(fn)[1] if q.startswith("DensityMatrix") else func_params(fn)[1]
+        fast = [c for c in ast.walk(fn) if isinstance(c, ast.Call) and call_attr(c) == "reshape" and len(c.args) == 4
+                and norm(c.args[0]) == norm(c.args[2]) and norm(c.args[1]) == norm(c.args[3]) and norm(c.args[0]) != norm(c.args[1])]
+        if not fast:
+            ctx.ok("trace.leading-block", m, fn, what=f"{q}: no leading-block fast path")
+            continue
+        for c in fast:
+            g = parent(c)
+            tests = []
+            while g is not None and g is not fn:
+                if isinstance(g, ast.If) and any(c is x for st in g.body for x in ast.walk(st)):
+                    tests.append(g.test)
+                g = parent(g)
+            txt = " and ".join(norm(t) for t in tests)
+            starts0 = any(k in txt for k in (f"{keep}[0] == 0", f"0 == {keep}[0]", f"{keep}[0]==0", "arange(", f"range(len({keep}))", f"{keep}.min() == 0", f"min({keep}) == 0"))
+            if starts0:
+                ctx.ok("trace.leading-block", m, c, what="fast path guarded by 'kept block starts at position 0'")
+            else:
+                ctx.fail("trace.leading-block", m, c,
+                         f"{q} takes the reshape-and-trace fast path `{short(c, 70)}` under `{txt[:90] or 'no condition'}`: nothing tests that the kept indices start at "
+                         f"position 0, so keep = [1], [1, 2], [2, 3] … are treated as a leading block and the reduced state of the first len(keep) subsystems is "
+                         f"returned (a valid density matrix of the right shape, nothing raises)", func=q, construct=f"{q}: leading-block fast path for any consecutive run")
+    if n == 0:
+        raise AnalysisError("trace.leading-block: no site")
+
+
 def run(ctx: Ctx) -> None:
+    rule_leading_block_trace(ctx)
     from ..rules import effects as _eff
     _eff.rule_weighted_fidelity(ctx)
     from ..rules import memo as _memo
@@ -324,6 +363,7 @@ def _edit_add_pauli_helper(src: str) -> str:
 
 
 KNOCKOUTS = [
+    Knockout("state-partial-trace-fast-path-for-any-run", "graphiq/backends/density_matrix/state.py", sub_once("        self.data = dmf.partial_trace(self.data, keep, dims)\n", "        keep = np.asarray(keep, dtype=int)\n        dims = np.asarray(dims, dtype=int)\n        if 0 < keep.size < dims.size and np.all(np.diff(keep) == 1):\n            d_keep = int(np.prod(dims[keep]))\n            d_rest = int(np.prod(dims)) // d_keep\n            self.data = np.trace(self.data.reshape(d_keep, d_rest, d_keep, d_rest), axis1=1, axis2=3)\n        else:\n            self.data = dmf.partial_trace(self.data, keep, dims)\n"), "trace.leading-block", "start at"),
     Knockout("pauli-from-bits-y-sign", "graphiq/backends/state_rep_conversion.py", _edit_add_pauli_helper, "conv.pauli-from-bits", "per-qubit Pauli factor"),
     Knockout("fidelity-commuting-shortcut-pairs-sorted-spectra", DMF, sub_once("    else:\n        # if both are mixed, use the definition\n", "    elif np.allclose(rho @ sigma, sigma @ rho):\n        p_vals, _ = eigh(rho)\n        q_vals, _ = eigh(sigma)\n        return np.sum(np.sqrt(np.maximum(p_vals, 0) * np.maximum(q_vals, 0))) ** 2\n    else:\n        # if both are mixed, use the definition\n"), "num.spectra-paired", "paired by position"),
     Knockout("branches-selected-not-weighted-by-fidelity", "graphiq/metrics.py", sub_once("[p_i * sfm.fidelity(tableau, t_i) for p_i, t_i in rep_data.mixture]", "[p_i for p_i, t_i in rep_data.mixture if t_i == tableau]"), "weight.fidelity", "branch contribution"),
